@@ -325,7 +325,7 @@ def run(prop, a, seed, scratch, t_start):
     # memory-aware scheduling: the sync-cache queries need 8-14 GB each, the others < 6 GB
     heavy = [h for h in names if byname[h].cost >= 120]
     light = [h for h in names if byname[h].cost < 120]
-    hjobs = max(1, min(jobs, 3 if a.tier == "quick" else 2))
+    hjobs = max(1, min(jobs, 4 if a.tier == "quick" else 3))
     mem_gb = 20 if a.tier == "quick" else 40
     recs, err, wall = {}, None, 0.0
     for gi, (grp, j) in enumerate(((light, jobs), (heavy, hjobs))):
